@@ -1,10 +1,10 @@
 (* C06 — property theorems only. Each is closed by [exact] of a lemma proved in C06/Proofs*.v. *)
 From Coq Require Import List Arith Bool ZArith QArith Lia.
 Import ListNotations.
-From AgileV Require Import C06.Model C06.Proofs.
+From AgileV Require Import C06.Model C06.Proofs C06.ProofsAgent.
 Local Open Scope Q_scope.
 
-(* ---------------- value level (RLParameter.mutate on exact rationals) ---------------- *)
+(* ---------------- value level (RLParam(eter).mutate on exact rationals) ---------------- *)
 
 (* Whatever the current value (even outside the range), the draw and the factors, the mutated value
    lies in [min, max]; for an int-typed hyperparameter this needs integer bounds (range_ok). *)
@@ -51,6 +51,112 @@ Theorem drift_bounded : forall (p : param Q), range_ok p ->
 Proof. exact mutate_seq_in_range. Qed.
 Print Assumptions drift_bounded.
 
+(* ---------------- agent level (any number carrier: rationals AND binary64) ---------------- *)
+
+(* Exactly one configured hyperparameter changes: the sampled one becomes the mutation of the
+   individual's OWN current attribute value (not of a value cached from anybody else), every other
+   attribute keeps its value, and the label names the mutated attribute. *)
+Theorem exactly_one_changes_from_own_value :
+  forall (T : Type) (O : numops T) (a : agent T) (k : nat) (u : T) (h : hpent T) (v : T),
+  Wf a -> CacheOk a -> nth_error (a_hps a) k = Some h -> getv (a_vals a) (hp_name h) = Some v ->
+  let a' := rl_hp_mutation O a k u in
+  getv (a_vals a') (hp_name h) = Some (mutate_value O (hp_par h) u v) /\
+  (forall m, m <> hp_name h -> getv (a_vals a') m = getv (a_vals a) m) /\
+  a_mut a' = Some (hp_name h).
+Proof. exact @hp_mutation_result. Qed.
+Print Assumptions exactly_one_changes_from_own_value.
+
+(* A mutated learning rate is the learning rate of every param group of every optimizer registered
+   with that name (twin critics, per-agent optimizer lists); optimizers registered under another
+   name are left exactly as they were. *)
+Theorem lr_takes_effect :
+  forall (T : Type) (O : numops T) (a : agent T) (k : nat) (u : T) (h : hpent T) (v : T),
+  Wf a -> CacheOk a -> nth_error (a_hps a) k = Some h -> getv (a_vals a) (hp_name h) = Some v ->
+  let a' := rl_hp_mutation O a k u in
+  let nv := mutate_value O (hp_par h) u v in
+  (forall o', In o' (a_opts a') -> o_cfg_lr o' = hp_name h ->
+      o_wlr o' = nv /\ Forall (fun g => g = nv) (o_groups o')) /\
+  (forall j o, nth_error (a_opts a) j = Some o -> o_cfg_lr o <> hp_name h ->
+      nth_error (a_opts a') j = Some o) /\
+  length (a_opts a') = length (a_opts a).
+Proof. exact @lr_takes_effect_lemma. Qed.
+Print Assumptions lr_takes_effect.
+
+(* The invariant (registry well formed, cache = own attribute, every optimizer group runs with the
+   attribute) survives every mutation, whatever the draws ... *)
+Theorem base_is_own_value_invariant :
+  forall (T : Type) (O : numops T) (a : agent T) (k : nat) (u : T), Inv a -> Inv (rl_hp_mutation O a k u).
+Proof. exact @inv_rl_hp_mutation. Qed.
+Print Assumptions base_is_own_value_invariant.
+
+(* ... and therefore every history of mutation rounds, single mutations and clones, on every population *)
+Theorem invariant_over_histories :
+  forall (T : Type) (O : numops T) (ops : list (pop_op T)) (pop : list (agent T)),
+  Forall Inv pop -> Forall Inv (pop_run O pop ops).
+Proof. exact @pop_run_inv. Qed.
+Print Assumptions invariant_over_histories.
+
+(* a population as create_population builds it satisfies the invariant: the computed registry check,
+   empty caches, optimizers created with the attribute values *)
+Theorem fresh_population_invariant :
+  forall (T : Type) (a : agent T),
+  wf_agent a = true -> (forall h, In h (a_hps a) -> hp_cache h = None) -> Coherent a -> Inv a.
+Proof. exact @fresh_inv. Qed.
+Print Assumptions fresh_population_invariant.
+
+(* No other agent's value moves: a mutation round acts on individual j with individual j's draws only,
+   and a single mutation leaves all other individuals as they were. *)
+Theorem round_is_local :
+  forall (T : Type) (O : numops T) (pop : list (agent T)) (draws : list (nat * T)) (j : nat),
+  nth_error (mutation_round O pop draws) j =
+  match nth_error pop j, nth_error draws j with
+  | Some a, Some (k, u) => Some (rl_hp_mutation O a k u)
+  | Some a, None => Some a
+  | None, _ => None
+  end.
+Proof. exact @mutation_round_nth. Qed.
+Print Assumptions round_is_local.
+
+Theorem other_agents_untouched :
+  forall (T : Type) (O : numops T) (pop : list (agent T)) (i k : nat) (u : T) (j : nat),
+  j <> i -> nth_error (pop_step O pop (MutOne i k u)) j = nth_error pop j.
+Proof. exact @mutone_others. Qed.
+Print Assumptions other_agents_untouched.
+
+Theorem population_size_kept :
+  forall (T : Type) (O : numops T) (ops : list (pop_op T)) (pop : list (agent T)),
+  length (pop_run O pop ops) = length pop.
+Proof. exact @pop_run_length. Qed.
+Print Assumptions population_size_kept.
+
+(* Over any history every configured hyperparameter of every individual stays inside its range
+   (rational instance; RInv = Inv + range_ok of every configured range + current values in range). *)
+Theorem population_drift_bounded :
+  forall (ops : list (pop_op Q)) (pop : list (agent Q)),
+  Forall RInv pop -> Forall RInv (pop_run QOps pop ops).
+Proof. exact ProofsAgent.population_drift_bounded. Qed.
+Print Assumptions population_drift_bounded.
+
+(* The two pinned (pre-fix) behaviours violate the property. *)
+(* only the first optimizer with the mutated lr name re-created: TD3-shaped registry, critic_2 keeps the old lr *)
+Theorem first_optimizer_only_refuted :
+  let a' := rl_hp_mutation_first_only QOps td3_like 0 (3 # 4) in
+  exists o lr, In o (a_opts a') /\ getv (a_vals a') (o_lr_name o) = Some lr /\ ~ o_wlr o == lr.
+Proof. exact first_only_refuted_lemma. Qed.
+Print Assumptions first_optimizer_only_refuted.
+
+(* one configuration object shared by the population: individual 1 is mutated from individual 0's cached value *)
+Theorem shared_config_refuted :
+  exists a1 own got,
+    nth_error (snd (shared_round QOps shared_cfg two_agents [(0%nat, 3 # 4); (0%nat, 3 # 4)])) 1 = Some a1 /\
+    nth_error two_agents 1 = Some own /\
+    getv (a_vals a1) 0%nat = Some got /\
+    match getv (a_vals own) 0%nat with
+    | Some v => ~ got == mutate_value QOps (hp_par (hd (Build_hpent 0%nat (Build_param 0 0 0 0 false) None) shared_cfg)) (3 # 4) v
+    | None => False end.
+Proof. exact shared_config_refuted_lemma. Qed.
+Print Assumptions shared_config_refuted.
+
 (* non-vacuity: a default learning-rate range and a default batch-size range satisfy range_ok, and the
    model computes the expected values *)
 Example range_ok_lr : range_ok {| p_min := 1 # 10000; p_max := 1 # 100; p_shrink := 8 # 10; p_grow := 12 # 10; p_int := false |}.
@@ -60,3 +166,18 @@ Proof. split; [cbn; unfold Qle; cbn; lia | intros _; exists 8%Z, 512%Z; split; r
 Example mutate_batch_64_shrinks_to_51 :
   mutate_value QOps {| p_min := 8; p_max := 512; p_shrink := 8 # 10; p_grow := 12 # 10; p_int := true |} (1 # 4) 64 == 51.
 Proof. vm_compute. reflexivity. Qed.
+
+(* the TD3-shaped agent satisfies the hypotheses of the agent-level theorems, and the current code
+   re-creates both critics' optimizers on it *)
+Example td3_like_inv : Inv td3_like.
+Proof.
+  apply fresh_population_invariant; [reflexivity| |].
+  - intros h [<-|[]]; reflexivity.
+  - intros o [<-|[<-|[<-|[]]]]; eexists; (split; [reflexivity|split; [reflexivity|repeat constructor]]).
+Qed.
+Example td3_like_all_follow :
+  let a' := rl_hp_mutation QOps td3_like 0 (3 # 4) in
+  forallb (fun o => match getv (a_vals a') (o_lr_name o) with
+                    | Some lr => Qeq_bool (o_wlr o) lr && forallb (Qeq_bool lr) (o_groups o)
+                    | None => false end) (a_opts a') = true.
+Proof. exact all_reinit_on_td3_like. Qed.
